@@ -286,3 +286,167 @@ where
     diff(&|| "chain(self)".into(), &chained, &exp)?;
     Ok(n + 2)
 }
+
+// ---- optional capabilities of an iterator type, probed without requiring them -----------------
+// (autoref dispatch: if the concrete iterator type implements DoubleEndedIterator the first impl
+// is chosen, otherwise the fallback; must be expanded where the iterator type is known, hence a
+// macro.  Today none of the crate's iterators is double-ended; the day one becomes so, pulling
+// from both ends has to give the same items.)
+
+pub struct BackProbe<'a, I>(pub &'a mut I);
+
+pub trait BackYes {
+    type It;
+    fn try_back(&mut self) -> Option<Option<Self::It>>;
+}
+impl<'a, I: DoubleEndedIterator> BackYes for BackProbe<'a, I> {
+    type It = I::Item;
+    fn try_back(&mut self) -> Option<Option<I::Item>> {
+        Some(self.0.next_back())
+    }
+}
+pub trait BackNo {
+    type It;
+    fn try_back(&mut self) -> Option<Option<Self::It>>;
+}
+impl<'a, 'b, I: Iterator> BackNo for &'b mut BackProbe<'a, I> {
+    type It = I::Item;
+    fn try_back(&mut self) -> Option<Option<I::Item>> {
+        None
+    }
+}
+
+/// `both_ends_modes!(what_closure, make_closure, key_closure)` -> Result<u64, String>
+#[macro_export]
+macro_rules! both_ends_modes {
+    ($what:expr, $make:expr, $key:expr) => {{
+        #[allow(unused_imports)]
+        use $crate::props::common::{BackNo, BackProbe, BackYes};
+        let mut res: Result<u64, String> = Ok(0);
+        let want: Vec<_> = ($make)().map($key).collect();
+        let supported = {
+            let mut it = ($make)();
+            let mut p = BackProbe(&mut it);
+            (&mut p).try_back().is_some()
+        };
+        if supported {
+            let len = want.len();
+            let mut n = 0u64;
+            'outer: for mode in 0..3usize {
+                for f in 0..=len {
+                    let mut it = ($make)();
+                    let mut front = vec![];
+                    let mut back = vec![];
+                    match mode {
+                        // f from the front, the rest from the back
+                        0 => {
+                            for _ in 0..f {
+                                if let Some(x) = it.next() {
+                                    front.push(($key)(x));
+                                }
+                            }
+                            loop {
+                                let mut p = BackProbe(&mut it);
+                                match (&mut p).try_back() {
+                                    Some(Some(x)) => back.push(($key)(x)),
+                                    _ => break,
+                                }
+                            }
+                        }
+                        // f from the back, the rest from the front
+                        1 => {
+                            for _ in 0..f {
+                                let mut p = BackProbe(&mut it);
+                                if let Some(Some(x)) = (&mut p).try_back() {
+                                    back.push(($key)(x));
+                                }
+                            }
+                            while let Some(x) = it.next() {
+                                front.push(($key)(x));
+                            }
+                        }
+                        // alternating, starting at the back when f is odd
+                        _ => {
+                            let mut turn = f % 2 == 1;
+                            loop {
+                                if turn {
+                                    let mut p = BackProbe(&mut it);
+                                    match (&mut p).try_back() {
+                                        Some(Some(x)) => back.push(($key)(x)),
+                                        _ => break,
+                                    }
+                                } else {
+                                    match it.next() {
+                                        Some(x) => front.push(($key)(x)),
+                                        None => break,
+                                    }
+                                }
+                                turn = !turn;
+                            }
+                            if f > 1 {
+                                back.reverse();
+                                front.extend(back);
+                                if front != want {
+                                    res = Err(format!("{}: pulled alternately from both ends the iterator yields {:?}, from the front only {:?}", ($what)(), front, want));
+                                }
+                                break 'outer;
+                            }
+                        }
+                    }
+                    back.reverse();
+                    front.extend(back);
+                    n += 1;
+                    if front != want {
+                        res = Err(format!(
+                            "{}: pulled from both ends ({} item(s) from the {} first) the iterator yields {:?}, from the front only {:?}",
+                            ($what)(),
+                            f,
+                            if mode == 1 { "back" } else { "front" },
+                            front,
+                            want
+                        ));
+                        break 'outer;
+                    }
+                }
+            }
+            if res.is_ok() {
+                res = Ok(n);
+            }
+        }
+        res
+    }};
+}
+
+#[cfg(test)]
+mod tests {
+    /// the probe really takes the double-ended path when it exists, and notices a broken one
+    #[test]
+    fn both_ends_probe_dispatch() {
+        let v = vec![1, 2, 3, 4, 5];
+        let r = crate::both_ends_modes!(|| "vec".to_string(), || v.iter().copied(), |x: i32| x);
+        assert!(matches!(r, Ok(n) if n > 0), "{:?}", r);
+        // not double-ended: probe answers 'unsupported'
+        let r = crate::both_ends_modes!(|| "scan".to_string(), || v.iter().copied().scan(0, |_, x| Some(x)), |x: i32| x);
+        assert_eq!(r, Ok(0));
+        // a broken double-ended iterator (drops the middle once both ends were touched)
+        struct Broken(Vec<i32>, bool, bool);
+        impl Iterator for Broken {
+            type Item = i32;
+            fn next(&mut self) -> Option<i32> {
+                self.1 = true;
+                if self.2 && self.0.len() < 4 {
+                    return None;
+                }
+                if self.0.is_empty() { None } else { Some(self.0.remove(0)) }
+            }
+        }
+        impl DoubleEndedIterator for Broken {
+            fn next_back(&mut self) -> Option<i32> {
+                self.2 = true;
+                self.0.pop()
+            }
+        }
+        let r = crate::both_ends_modes!(|| "broken".to_string(), || Broken(vec![1, 2, 3, 4, 5], false, false), |x: i32| x);
+        assert!(r.is_err(), "{:?}", r);
+    }
+}
